@@ -11,11 +11,21 @@ ROOT = os.path.dirname(os.path.dirname(os.path.abspath(__file__)))
 REPO = os.environ.get("NEXRAD_REPO", "/repo")
 SEED = int(os.environ.get("VERIF_SEED", "1"))
 
-MODEL = ["chrono", "uom", "serde"]
-DECODE = ["uom", "nexrad-model"]
-FACADE = ["nexrad-model", "nexrad-decode", "nexrad-data"]
-DATA_NAMED = ["aws", "decode"]
-DATA_OPT = ["serde", "bincode", "reqwest", "xml", "bzip2", "tokio", "nexrad-model", "nexrad-decode"]
+def manifest_features(crate):
+    """Named features (except `default` and the verification guard) and optional dependencies of a
+    crate, read from its Cargo.toml in the tree under test, so that a feature added later is part of
+    the enumerated space without touching this script."""
+    import tomllib
+    m = tomllib.load(open(os.path.join(REPO, crate, "Cargo.toml"), "rb"))
+    named = [f for f in m.get("features", {}) if f not in ("default", "verif-hooks")]
+    opt = [d for d, v in m.get("dependencies", {}).items() if isinstance(v, dict) and v.get("optional")]
+    named = [f for f in named if f not in opt]
+    return named, opt
+
+_n, _o = manifest_features("nexrad-model"); MODEL = _n + _o
+_n, _o = manifest_features("nexrad-decode"); DECODE = _n + _o
+_n, _o = manifest_features("nexrad"); FACADE = _n + _o
+DATA_NAMED, DATA_OPT = manifest_features("nexrad-data")
 
 def powerset(xs):
     for r in range(len(xs) + 1):
@@ -53,7 +63,9 @@ def cells(tier):
         add(data_all)
         import random
         rnd = random.Random(SEED)
-        for _ in range(24):                     # seeded random subsets
+        # 160 seeded random subsets: a build break that needs a specific on/off setting of any
+        # five of the ten features (1/32 of the space) is hit with probability 1 - (31/32)^160 > 99 %
+        for _ in range(160):
             add([x for x in data_all if rnd.random() < 0.5])
     out.append(("nexrad-data", ["aws", "decode", "nexrad-model", "verif-hooks"]))
     return out
@@ -102,10 +114,10 @@ def main():
     t0 = time.time()
     persistent = os.path.join(ROOT, "featmatrix", "target")
     scratch_root = os.environ.get("VERIF_SCRATCH", "/var/tmp")
-    workers = 2 if tier == "quick" else 8
+    workers = 4 if tier == "quick" else 8
     targets, temp_targets = [], []
     for w in range(workers):
-        if w < 2:
+        if w < 4:
             targets.append(os.path.join(persistent, f"w{w}"))
         else:
             d = os.path.join(scratch_root, f"nxv-featmatrix-{os.getpid()}-w{w}")
@@ -161,7 +173,7 @@ def main():
             "samples": [{"crate": c, "features": f, "exit": rc, "seconds": round(dt, 2), "cmd": cmd} for (c, f, rc, _e, cmd, dt) in results[:3] + results[-2:]],
             "exhaustive": True,
             "exhaustive_subdomain": ("model 2^3, decode 2^2, facade 2^3, data 2^10 (named + optional-dependency features) + verif-hooks on" if tier == "thorough"
-                                     else "model 2^3, decode 2^2, facade 2^3, data named-feature powerset 2^2; data optional dependencies: each alone with each named set, every pair alone, all-but-one, all, 24 seeded subsets"),
+                                     else "model 2^3, decode 2^2, facade 2^3, data named-feature powerset 2^2; data optional dependencies: each alone with each named set, every pair alone, all-but-one, all, 160 seeded random subsets (>99% of all 5-way on/off interactions)"),
             "observed": {"cells_checked": len(results), "cells_built": sum(1 for r in results if r[2] == 0),
                          "per_crate_checked_built": per_crate,
                          "probe_runs": len(probe_results), "probe_ok": sum(1 for p in probe_results if p[1])},
